@@ -1,8 +1,100 @@
-(* C16: transposition preserves text (preliminary: the text lemma; the full theorems follow). *)
+(* C16: transposition preserves text.
+   For every list of texts T, every transposition V over them whose corresponding fragments have
+   identical text (wf_transp; simple transpositions have single-fragment sides), every source
+   (resource r, ranges src inside its text), every TranspositionSide and both entry points
+   (annotation / text selection set), the model of transpose() (Model/Transpose.v, transcribed after
+   the six fix commits) either fails or returns a new transposition that passes
+   Spec/TransposeSpec.v check_forward:
+     one side per side of V; exactly one source side; it lies in r, inside the text, and is the
+     source cut into consecutive pieces in order; the source is covered by the fragments of that
+     side of V; every other side has as many pieces, each a selection of a resource its old side
+     lies in, with the text of the corresponding source piece.
+   check_forward_text spells out the text equalities, new_transposition_ok that the result is a
+   transposition again, transpose_back that transposing a side of it back returns the same
+   offsets, uncovered_fails that an uncovered source fails, transpose_total that the model never
+   reaches a panic site nor runs out of fuel.  No known-finding class is needed. *)
 From Coq Require Import NArith.
 From Stam Require Import Base.Tac Model.Rel Model.Offset Model.Transpose Spec.TransposeSpec Proofs.Transpose.
 
+(* rel_offset_text *)
 Theorem C16_rel_offset_text : forall (t1 t2 : text) b1 e1 b2 e2 x y,
   sub t1 b1 e1 = sub t2 b2 e2 -> y <= e1 - b1 -> y <= e2 - b2 ->
   sub t1 (b1 + x) (b1 + y) = sub t2 (b2 + x) (b2 + y).
 Proof. exact rel_offset_text. Qed.
+
+(* transpose_text + out_wf + coverage: every successful result passes the specification *)
+Theorem C16_transpose_sound : forall T V r src cfg existing complex fuel res,
+  wf_input T complex V r src = true ->
+  transpose fuel (lens_of T) complex V r src cfg existing = TOk res ->
+  check_forward T V r src cfg (flagged res) = true.
+Proof.
+  intros T V r src cfg existing complex fuel res Hwf. destruct (wf_input_facts _ _ _ _ _ Hwf) as (H1 & H2 & H3).
+  exact (transpose_sound T V r src cfg existing complex fuel res H1 H2 H3).
+Qed.
+
+(* the entry point for annotations is the same function on the annotation's text selections *)
+Theorem C16_annotation_entry : forall fuel lens complex V r src cfg, src <> [] ->
+  transpose_annotation fuel lens complex V (map (fun p => mkfrag r (fst p) (snd p)) src) cfg
+  = transpose fuel lens complex V r src cfg true.
+Proof. exact transpose_annotation_eq. Qed.
+
+(* what passing the specification means for the texts: the source side selects the text of the
+   source (concatenation of its pieces = concatenation of the source ranges), all sides select
+   piece by piece the same texts, inside their texts; the source is covered *)
+Theorem C16_text_preserved : forall T V r src cfg O, check_forward T V r src cfg O = true ->
+  exists s, find_flag 0 O = Some s /\ length O = length V
+    /\ concat (map (subf T) (snd (nth s O (0, [])))) = concat (map (sub2 (text_of T r)) src)
+    /\ covered (nth s V []) r src = true
+    /\ forall j, j < length O ->
+         Forall (fun g => in_range T g = true) (snd (nth j O (0, [])))
+         /\ map (subf T) (snd (nth j O (0, []))) = map (subf T) (snd (nth s O (0, []))).
+Proof. exact check_forward_text. Qed.
+
+(* new_transposition_wf *)
+Theorem C16_new_transposition_wf : forall T V r src cfg O,
+  wf_transp T V = true -> check_forward T V r src cfg O = true -> new_transposition_wf T O = true.
+Proof. exact new_transposition_ok. Qed.
+
+(* transpose_back: side j of a transposition transposed over it (ByIndex(j), or Auto when no other
+   side lies in its resource) gives back the transposition's own offsets on every side *)
+Theorem C16_transpose_back : forall T O j cfg fuel,
+  wf_transp T O = true -> j < length O ->
+  single_res (nth j O []) = true -> pairwise_apart (nth j O []) = true ->
+  (cfg = Some j \/ (cfg = None /\ only_side_in_res O j = true)) ->
+  fuel_for (map rng (nth j O [])) <= fuel ->
+  transpose_annotation fuel (lens_of T) true O (nth j O []) cfg = TOk (mkres j false O).
+Proof. exact transpose_back. Qed.
+
+(* uncovered_fails *)
+Theorem C16_uncovered_fails : forall T V r src cfg existing complex fuel,
+  wf_input T complex V r src = true ->
+  (forall s, covered (nth s V []) r src = false) ->
+  forall res, transpose fuel (lens_of T) complex V r src cfg existing <> TOk res.
+Proof.
+  intros T V r src cfg existing complex fuel Hwf. destruct (wf_input_facts _ _ _ _ _ Hwf) as (H1 & H2 & H3).
+  exact (uncovered_fails T V r src cfg existing complex fuel H1 H2 H3).
+Qed.
+
+(* no panic site is reached and the fuel of fuel_for suffices: the answer is Err or Ok *)
+Theorem C16_total : forall T V r src cfg existing complex fuel,
+  wf_input T complex V r src = true -> fuel_for src <= fuel ->
+  transpose fuel (lens_of T) complex V r src cfg existing = TErr
+  \/ exists res, transpose fuel (lens_of T) complex V r src cfg existing = TOk res.
+Proof.
+  intros T V r src cfg existing complex fuel Hwf. destruct (wf_input_facts _ _ _ _ _ Hwf) as (H1 & H2 & H3).
+  exact (transpose_total T V r src cfg existing complex fuel H1 H2 H3).
+Qed.
+
+(* non-vacuity: "abcdefgh" / "xabcdyefgh", fragments abcd|efgh on both sides, source 2..6 "cdef"
+   spans two fragments: resegmented into 2..4, 4..6 and transposed to 3..5, 6..8; transposing the
+   result back gives the same offsets; a source reaching 1 beyond the fragments fails *)
+Example C16_nonvacuous :
+  let T := [[97;98;99;100;101;102;103;104;105]; [120;97;98;99;100;121;101;102;103;104]]%N in
+  let V := [[mkfrag 0 0 4; mkfrag 0 4 8]; [mkfrag 1 1 5; mkfrag 1 6 10]] in
+  let O := [[mkfrag 0 2 4; mkfrag 0 4 6]; [mkfrag 1 3 5; mkfrag 1 6 8]] in
+  wf_input T true V 0 [(2, 6)] = true
+  /\ transpose 10 (lens_of T) true V 0 [(2, 6)] None true = TOk (mkres 0 true O)
+  /\ check_forward T V 0 [(2, 6)] None (flagged (mkres 0 true O)) = true
+  /\ transpose_annotation 10 (lens_of T) true O (nth 1 O []) None = TOk (mkres 1 false O)
+  /\ transpose 10 (lens_of T) true V 0 [(6, 9)] None true = TErr.
+Proof. vm_compute. repeat split. Qed.
